@@ -269,6 +269,9 @@ func ParsePKCS8EcryptedPrivateKey(der, pwd []byte) (*sm2.PrivateKey, error) {
 	if err != nil {
 		return nil, err
 	}
+	if len(iv) != block.BlockSize() || len(encryptedKey)%block.BlockSize() != 0 {
+		return nil, errors.New("x509: malformed encrypted private key")
+	}
 	mode := cipher.NewCBCDecrypter(block, iv)
 	mode.CryptBlocks(encryptedKey, encryptedKey)
 	rKey, err := ParsePKCS8UnecryptedPrivateKey(encryptedKey)
